@@ -2,6 +2,7 @@ package main
 
 import (
 	"fmt"
+	"math"
 	"reflect"
 	"strings"
 
@@ -78,6 +79,7 @@ func (r *rng) varyDelivery(evs []event) []event {
 	copy(out, evs)
 	refs := r.chance(1, 2)
 	unknown := r.chance(1, 3)
+	huge := r.chance(1, 8)
 	for i := range out {
 		e := &out[i]
 		switch e.kind {
@@ -92,6 +94,9 @@ func (r *rng) varyDelivery(evs []event) []event {
 		case evArrStart, evObjStart:
 			if unknown && r.bool() {
 				e.n = -1
+			} else if huge && r.chance(1, 3) {
+				// an announced length the stream does not back with elements (C14: a hint, not a licence to allocate)
+				e.n = []int{5000, 1 << 20, 1 << 40, 1 << 62, math.MaxInt64}[r.n(5)]
 			}
 		}
 	}
